@@ -15,6 +15,7 @@ From V Require Import Gen.NodesXml Model.Xml Spec.XmlLex.
 From V Require Import Gen.Cli Model.CliModel Spec.CliDoc.
 From V Require Import Gen.Tagfilter Model.Tagfilter Spec.GfmFilter.
 From V Require Import Spec.Shape.
+From V Require Import Gen.Special Model.Special Spec.Triggers.
 Extraction Language OCaml.
 Set Extraction KeepSingleton.
 
@@ -158,4 +159,11 @@ Extraction "model.ml"
   Shape.s3
   Shape.s6
   Shape.s6w
+  Triggers.c13_feature_names
+  Triggers.c13_triggers
+  Triggers.c13_free_of
+  Triggers.c13_free_of_heads
+  Special.c13_find_special
+  Special.c13_select_arm
+  Special.c13_tables
 .
